@@ -145,6 +145,12 @@ def rule_prefix(ctx):
         """t is the atom node with `insert_str(0, prefix)` applied to its predicate symbol (whichever way the update is recorded)"""
         if t is None:
             return False
+        # the node rebuilt with `format!("{prefix}{symbol}")` as its symbol: the prefix in front, the terms as they were
+        built = ("ctor", "Formula::AtomicFormula", (("0", ("ctor", "AtomicFormula::Atom", (("0", ("ctor", "Atom", (
+            ("predicate_symbol", ("format", "{}{}", (("param", "$prefix"), ("param", "$p")))), ("terms", ("param", "$ts"))))),))),))
+        from ..leaves import norm as _norm
+        if _norm(t) == built:
+            return True
         r = repr(t)
         if r.count("insert_str") != 1 or "('lit', 0), ('param', '$prefix')" not in r:
             return False
